@@ -464,6 +464,8 @@ class vCategory:
 
     @staticmethod
     def from_ical(ical):
+        if isinstance(ical, vCategory):
+            return [str(category) for category in ical.cats]
         ical = to_unicode(ical, encoding=DEFAULT_ENCODING)
         # split on the commas between the items, not on the escaped commas
         # inside an item, and unescape each item afterwards
@@ -975,6 +977,8 @@ class vPeriod(TimeBase):
 
     @staticmethod
     def from_ical(ical, timezone=None):
+        if isinstance(ical, vPeriod):
+            return ical.dt
         try:
             start, end_or_duration = ical.split('/')
             start = vDDDTypes.from_ical(start, timezone=timezone)
@@ -1631,6 +1635,8 @@ class vGeo:
 
     @staticmethod
     def from_ical(ical):
+        if isinstance(ical, vGeo):
+            return (ical.latitude, ical.longitude)
         try:
             latitude, longitude = ical.split(";")
             return (float(latitude), float(longitude))
